@@ -7,6 +7,8 @@ any enabled transition of the rely relation R:
   E2 starter fails       : [launch]; prepare_thread := None
   E3 another prepare()   : only while this thread does not hold the lock; as one atomic step (it is a critical section)
   E4 another run()       : likewise; joins a running starter first
+  E5 another close()     : two steps, as in the code: (a) inside the critical section the starter is joined and the connection taken away;
+                           (b) later, while no call is in flight (call_lock), the server is told to stop and the connection is closed
 Every transition is what the SAME code does in another thread (guarantee is a subset of rely by construction: E1/E2 are the effects of
 _threaded_run, E3/E4 of the critical sections).  Process launch and the connection are instrumented fakes."""
 import sys
@@ -54,6 +56,42 @@ finally:
 print('not reproduced: launches', len(launches))
 '''
 
+CLOSE_RACE_REPLAY = '''import sys, threading, linecache; sys.path.insert(0, %(repo)r)
+from supp import remote
+from supp.umsgpack import dumps
+class Conn(object):
+    def __init__(self): self.sent, self.closed = [], False
+    def send_bytes(self, b):
+        if self.closed: raise OSError('handle is closed')
+        self.sent.append(b)
+    def recv_bytes(self):
+        if self.closed: raise EOFError()
+        return dumps(('answer', True))
+    def close(self): self.closed = True
+env = remote.Environment(); env.conn = Conn()
+def fake_run(): env.conn = Conn()
+env._run = fake_run
+code = remote.Environment._call.__code__
+done = []
+def tracer(frame, event, arg):
+    if frame.f_code is code:
+        def local(frame, event, arg):
+            if event == 'line' and 'send_bytes' in linecache.getline(code.co_filename, frame.f_lineno) and not done:
+                done.append(1)
+                t = threading.Thread(target=env.close); t.start(); t.join(2)     # another thread's close(), as far as it gets
+            return local
+        return local
+sys.settrace(tracer)
+try:
+    r = env._call('assist', 1)
+    print('not reproduced: answered', r)
+except Exception as e:
+    print('REPRODUCED: schedule first-call || close(): the call found the connection in place, the other thread closed the session before '
+          'the request was sent: %%s: %%s' %% (type(e).__name__, e)); sys.exit(1)
+finally:
+    sys.settrace(None)
+'''
+
 CLOSE_REPLAY = '''import sys; sys.path.insert(0, %(repo)r)
 from supp import remote
 sent = []
@@ -82,6 +120,9 @@ class World(object):
         self.trace = []
         self.conns = []
         self.env_steps = 0
+        self.taken = []          # connections another thread's close() took away and has not closed yet
+        self.taken_ever = []
+        self.other_close = False
         if conn_present:
             env.conn = FakeConn(self)
         if starter_alive:
@@ -90,7 +131,7 @@ class World(object):
             env.prepare_thread = self.starter
 
     # --- environment transitions -------------------------------------------------
-    def enabled(self, lock_held):
+    def enabled(self, lock_held, call_lock_held=False):
         ts = []
         if self.starter is not None and self.starter.alive:
             ts += ['E1-starter-finishes', 'E2-starter-fails']
@@ -98,6 +139,10 @@ class World(object):
             e = self.env
             if not e.prepare_thread and not hasattr(e, 'conn'):
                 ts += ['E3-other-prepare', 'E4-other-run']
+            if self.other_close and not self.taken_ever and (hasattr(e, 'conn') or (self.starter is not None and self.starter.alive)):
+                ts += ['E5a-other-close-takes-the-connection']
+        if self.taken and not call_lock_held:
+            ts += ['E5b-other-close-tells-the-server']
         return ts
 
     def apply(self, t):
@@ -121,6 +166,17 @@ class World(object):
         elif t.startswith('E4'):
             self.launches += 1
             e.conn = FakeConn(self)
+        elif t.startswith('E5a'):
+            if self.starter is not None and self.starter.alive:
+                self.apply('E1-starter-finishes' if core.choice(2) == 0 else 'E2-starter-fails')
+            c = e.__dict__.pop('conn', None)
+            if c is not None:
+                self.taken.append(c)
+                self.taken_ever.append(c)
+        elif t.startswith('E5b'):
+            c = self.taken.pop(0)
+            c.sent.append('close')
+            c.closed = True
 
     def launch(self, who):
         self.launches += 1
@@ -137,10 +193,14 @@ class FakeConn(object):
         w.conns.append(self)
 
     def send_bytes(self, b):
+        if self.closed:
+            raise OSError('handle is closed')
         self.sent.append(b)
 
     def recv_bytes(self):
         from supp.umsgpack import dumps
+        if self.closed:
+            raise EOFError()
         # the oldest request that has not been answered yet (with one thread: the one just sent)
         if self.answered < len(self.sent):
             self.answered += 1
@@ -171,15 +231,17 @@ class FakeThread(object):
         return True
 
 
-def startup_interleavings(run, only=None):
+def startup_interleavings(run, only=None, variants=((False, None), (True, 3))):
     """for every initial state (starter running or not, connection present or not) and every interleaving, at source-line granularity,
     of environment transitions with the real prepare() / run() / _call(): at most ONE launch in total, the thread observes no exception
     caused by the handshake, and after run() returns a connection exists unless the launch itself failed"""
     import supp.remote as R
     run.trust('threading.Lock gives mutual exclusion; Thread.join returns after the target returned; attribute reads / writes are atomic at '
               'source-line granularity (the property\'s own quantifier)')
-    run.concretise = lambda model, ob: {'input': 'prepare() racing with the first call: starter clears prepare_thread between `if` and `.join()`',
-                                        'script': RACE_REPLAY % {'repo': core.REPO}}
+    run.concretise = lambda model, ob: ({'input': 'first call racing with close() of another thread: the connection is taken away between the test and the send',
+                                         'script': CLOSE_RACE_REPLAY % {'repo': core.REPO}} if 'another-thread-closes' in ob.name else
+                                        {'input': 'prepare() racing with the first call: starter clears prepare_thread between `if` and `.join()`',
+                                         'script': RACE_REPLAY % {'repo': core.REPO}})
     codes = {R.Environment.prepare.__code__, R.Environment.run.__code__, R.Environment._call.__code__, R.Environment.close.__code__}
     holder = {}
 
@@ -202,7 +264,7 @@ def startup_interleavings(run, only=None):
                         # completion of at most two starter threads (the property quantifies over up to three threads)
                         if w.env_steps >= w.env_cap:
                             break
-                        ts = w.enabled(w.env.prepare_lock.locked())
+                        ts = w.enabled(w.env.prepare_lock.locked(), w.env.call_lock.locked())
                         if not ts:
                             break
                         c = core.choice(len(ts) + 1)
@@ -224,7 +286,7 @@ def startup_interleavings(run, only=None):
                     w.at_close = (list(w.conns), w.starter if (w.starter is not None and w.starter.alive) else None)
                     e.close()
                     open_before, starter_before = w.at_close
-                    w.survivors = [c for c in w.conns if not c.closed and (c in open_before or (starter_before is not None and getattr(c, 'by', None) is starter_before))]
+                    w.survivors = [c for c in w.conns if not c.closed and c not in w.taken_ever and (c in open_before or (starter_before is not None and getattr(c, 'by', None) is starter_before))]
                     w.starter_survives = starter_before is not None and starter_before.alive
                     if had:
                         w.closed_sessions = getattr(w, 'closed_sessions', 0) + 1
@@ -244,12 +306,15 @@ def startup_interleavings(run, only=None):
     for mname, call in scenarios:
         if only is not None and mname not in only:
             continue
-        for starter_alive in (False, True):
-            for conn_present in (False, True):
+        for starter_alive, conn_present, (oc, cap) in [(a_, b_, v_) for a_ in (False, True) for b_ in (False, True) for v_ in variants]:
+            if oc and mname.count(';') > 1:
+                continue            # another thread's close() interferes with the single operations and the two-step sequences
+            if True:
                 if starter_alive and conn_present:
                     continue        # invariant I: a running starter means no connection yet
-                def body(call=call, starter_alive=starter_alive, conn_present=conn_present, mname=mname):
-                    run.case = '%s/starter-%s/conn-%s' % (mname, 'running' if starter_alive else 'none', 'present' if conn_present else 'absent')
+                def body(call=call, starter_alive=starter_alive, conn_present=conn_present, mname=mname, oc=oc, cap=cap):
+                    run.case = '%s/starter-%s/conn-%s%s' % (mname, 'running' if starter_alive else 'none', 'present' if conn_present else 'absent',
+                                                           '/another-thread-closes' if oc else '')
                     env = R.Environment()
                     env._run = fake_run.__get__(env)
                     R.Thread = lambda target=None: FakeThread(holder['w'], target)
@@ -257,6 +322,9 @@ def startup_interleavings(run, only=None):
                     # environment events per run: 4 (two other threads performing one operation each plus the completion of two starters);
                     # 3 for sequences of three operations of this thread (the path count grows with the number of lines executed)
                     w.env_cap = 3 if mname.count(';') >= 2 else 4
+                    w.other_close = oc
+                    if cap is not None:
+                        w.env_cap = cap
                     holder['w'] = w
                     sys.settrace(tracer)
                     try:
@@ -274,13 +342,16 @@ def startup_interleavings(run, only=None):
                         return
                     # a starter started by this thread's prepare() will run _threaded_run later: account for its launch
                     pending = 1 if (w.starter is not None and w.starter.alive and not w.starter.launched) else 0
-                    closed = sum(1 for c in w.conns if c.closed)
+                    closed = sum(1 for c in w.conns if c.closed or c in w.taken_ever)
                     prove('at-most-one-launch', w.launches + pending - w.failed <= 1 + closed,
                           clause='one server process per session (a launch is retried only after a failed one; a new one only after close() ended '
                                  'a session) [launches=%d pending=%d failed=%d sessions-closed=%d after: %s]' % (w.launches, pending, w.failed, closed, sched), path=p)
                     if mname in ('run', '_call') or mname.endswith('_call'):
-                        prove('connected-after-run', hasattr(w.env, 'conn') or w.launch_failed,
-                              clause='after run() a connection exists (unless the launch failed) [%s]' % sched, path=p)
+                        prove('connected-after-run', hasattr(w.env, 'conn') or w.launch_failed or bool(w.taken_ever),
+                              clause='after run() a connection exists (unless the launch failed, or another thread closed the session since) [%s]' % sched, path=p)
+                    if mname.endswith('_call'):
+                        prove('call-answered', isinstance(out[1], list) and len(out[1]) == 2 and out[1][0] == 'reply-to',
+                              clause='every call is answered, also when another thread closes the session around it [%r after: %s]' % (out[1], sched), path=p)
                     if mname.endswith(';close'):
                         # (other threads may open a NEW session once this one is closed: only what existed, or was being started, when
                         #  close() was entered is this session)
@@ -288,7 +359,7 @@ def startup_interleavings(run, only=None):
                               clause='close() ends the session: every connection that was open when it was called is closed, and a starter thread '
                                      'that was still running is waited for and its connection closed too [%d connection(s) left open, starter %s; after: %s]'
                                      % (len(getattr(w, 'survivors', [])), 'still running' if getattr(w, 'starter_survives', False) else 'done', sched), path=p)
-                    if mname == '_call' and hasattr(w.env, 'conn'):
+                    if mname == '_call' and hasattr(w.env, 'conn') and not w.taken_ever:
                         prove('one-request-sent-one-reply-returned', len(w.env.conn.sent) == 1 and out[1] == ['reply-to', 1], path=p)
                 core.explore(body, on_path)
     run.case = None
@@ -524,11 +595,80 @@ def close_and_call(run):
                     raise RuntimeError('launch failed')
                 e4.conn = 'connection'
             e4._run = fr
+            # run() and close() join the starter while they hold the start-up lock: the rely transitions E1 / E2 are enabled whatever
+            # locks other threads hold, so the starter may wait for none of the Environment's locks
+            waited = []
+
+            class HeldElsewhere(object):
+                def __init__(self, name):
+                    self.name = name
+
+                def acquire(self, *a, **k):
+                    waited.append(self.name)
+                    return True
+
+                def release(self):
+                    pass
+
+                def __enter__(self):
+                    waited.append(self.name)
+
+                def __exit__(self, *a):
+                    pass
+            lock_types = (type(threading.Lock()), type(threading.RLock()))
+            for k_, v_ in list(vars(e4).items()):
+                if isinstance(v_, lock_types):
+                    setattr(e4, k_, HeldElsewhere(k_))
             try:
                 e4._threaded_run()
                 exc = None
             except RuntimeError as e:
                 exc = e
+            # the locks held where the real run() / close() join the starter
+            held_at_join = set()
+            for op in ('run', 'close'):
+                e5 = R.Environment()
+                held = []
+
+                class Recording(object):
+                    def __init__(self, name):
+                        self.name = name
+
+                    def acquire(self, *a, **k):
+                        held.append(self.name)
+                        return True
+
+                    def release(self):
+                        held.remove(self.name)
+
+                    def __enter__(self):
+                        held.append(self.name)
+
+                    def __exit__(self, *a):
+                        held.remove(self.name)
+
+                class Starter(object):
+                    def join(self, timeout=None):
+                        held_at_join.update(held)
+                        e5.prepare_thread = None
+                        e5.conn = FakeConn(w)
+
+                    def is_alive(self):
+                        return True
+                for k_, v_ in list(vars(e5).items()):
+                    if isinstance(v_, lock_types):
+                        setattr(e5, k_, Recording(k_))
+                e5.prepare_thread = Starter()
+                e5._run = lambda: None
+                try:
+                    getattr(e5, op)()
+                except Exception:
+                    pass
+            prove('joiners-hold-the-start-up-lock', 'prepare_lock' in held_at_join, kind='lemma',
+                  clause='run() and close() join the starter inside their critical section [locks held at the joins: %r]' % (sorted(held_at_join),), path=path)
+            prove('starter-%s-waits-for-no-lock-a-joiner-holds' % ('fails' if fails else 'finishes'), not (set(waited) & held_at_join),
+                  clause='_threaded_run acquires no lock that run() / close() hold while they join it: the joiner would never be released '
+                         '[starter waits for %r, joiners hold %r]' % (waited, sorted(held_at_join)), path=path)
             prove('starter-%s-is-the-rely-transition' % ('fails' if fails else 'finishes'),
                   e4.prepare_thread is None and seen == ['the starter handle'] and (hasattr(e4, 'conn') != fails) and ((exc is not None) == fails),
                   clause='_threaded_run: _run() while the handle is still set, then the handle is cleared (also when the launch fails)', path=path)
@@ -552,8 +692,10 @@ def close_and_call(run):
     core.explore(lambda: None, lambda p, out: go(p))
 
 
-def _mk(group, names):
+def _mk(group, names, variants=None):
     def h(run):
+        if variants is not None:
+            return startup_interleavings(run, only=names, variants=variants)
         return startup_interleavings(run, only=names)
     h.__name__ = 'startup_' + group
     h.__doc__ = startup_interleavings.__doc__ + '  [operation sequences of this thread: %s]' % ', '.join(names)
@@ -564,3 +706,8 @@ for _g, _names in (('single-operations', ('prepare', 'run', '_call')), ('prepare
                    ('prepare-close-prepare', ('prepare;close;prepare',)), ('call-close-call', ('_call;close;_call',)), ('close-call', ('close;_call',)),
                    ('ends-with-close', ('prepare;close', '_call;close'))):
     harness(['C16'], 'supp.remote.Environment.{prepare,run,_threaded_run,_call,close}[start-up under interference: %s]' % _g)(_mk(_g, _names))
+# thorough tier only: another thread's close() with the full budget of environment transitions
+for _g, _names in (('single-operations, another close, 4 environment transitions', ('prepare', 'run', '_call')),
+                   ('two-step sequences, another close, 4 environment transitions', ('close;_call', 'prepare;close', '_call;close'))):
+    harness(['C16'], 'supp.remote.Environment.{prepare,run,_threaded_run,_call,close}[start-up under interference: %s]' % _g,
+            tier='thorough')(_mk(_g, _names, variants=((True, 4),)))
